@@ -19,6 +19,7 @@ import os
 import socket as real_socket
 import struct
 import sys
+import tempfile
 import threading
 import time
 import types
@@ -545,11 +546,27 @@ def run_xfer(c):
             script += [(1, fake_net.CLI, ack(0))]
     streams = []
 
+    tmpfiles = []
+
     def handler(filename, client, server, context):
         if c["hres"] == "tftperror":
             raise S.TftpError("no such file", P.ErrorCode.FILE_NOT_FOUND)
         if c["hres"] == "exception":
             raise KeyError("boom")
+        kind = c.get("stream", "chunked")
+        if kind == "bytesio":
+            # a REAL io.BytesIO (isinstance checks and buffer exports in the code under test apply)
+            st = io.BytesIO(bytes(8 * 65540) if x == "overflow" else content)
+            streams.append(st)
+            return st
+        if kind == "file":
+            fd, path = tempfile.mkstemp(prefix="vf_c20_")
+            os.write(fd, bytes(8 * 65540) if x == "overflow" else content)
+            os.close(fd)
+            tmpfiles.append(path)
+            st = open(path, "rb")
+            streams.append(st)
+            return st
         if x == "overflow":
             st = _Stream(bytes(8 * 65540), [], None, c["tsize"])
         else:
@@ -594,8 +611,19 @@ def run_xfer(c):
         S.logger.propagate = old_prop
         logging.disable(logging.CRITICAL)
         threading.excepthook = old_hook
+    for pth in tmpfiles:
+        try:
+            os.remove(pth)
+        except OSError:
+            pass
     closes = len([e for e in log if e == ("close_sock",)])
-    fclosed = len([s for s in streams if s.closed_by_server])
+    # the file object's own state after the thread has ended (not merely "close() was called")
+    fclosed = len([s for s in streams if s.closed])
+    for st_ in streams:
+        try:
+            st_.close()
+        except Exception:      # noqa  (e.g. BufferError while a buffer export is alive)
+            pass
     logexc = len([e for e in log if e[0] == "logexc"])
     return [closes, fclosed, ended, logexc, 1 if uncaught else 0]
 
@@ -662,6 +690,12 @@ class C20(Check):
                                 continue     # the size computation fails before the transfer
                             yield {"kind": "xfer", "sock_ok": so, "hres": hres, "tsize": ts, "xend": x,
                                    "send_err_raises": se}
+                            # the same endings with a real io.BytesIO and a real file as the handler's file object
+                            # (multi-block content: early endings leave data unread)
+                            if so and hres == "file" and not ts and x != "internal":
+                                for stream in ("bytesio", "file"):
+                                    yield {"kind": "xfer", "sock_ok": so, "hres": hres, "tsize": ts, "xend": x,
+                                           "send_err_raises": se, "stream": stream}
         # concurrent start/stop
         single = [[1], [0]]
         double = [[1, 0], [0, 1]]
